@@ -83,6 +83,9 @@ pub struct HistoryModel {
     pub max_deviations: u8,
 }
 
+/// number of gallery seeds (S0..S11)
+const GALLERY_SIZE: usize = 12;
+
 fn commit_spec(props: Vec<Prop>) -> CommitSpec {
     CommitSpec { props, rekey: false, aad: vec![] }
 }
@@ -146,6 +149,17 @@ impl HistoryModel {
         // leaf 1 under a parent whose other subtree is entirely blank: filtered direct path)
         let mut s10 = s2.clone();
         s10.extend([c(0, vec![Add(4)]), c(4, vec![]), c(0, vec![Remove(1), Remove(2)]), c(0, vec![Remove(3)])]);
+        // five members in an 8-leaf tree with an interior blank leaf under a re-keyed parent and a
+        // member outside that parent's subtree: A _ C D E (an Add committed with a path by E puts
+        // the joiner at leaf 1; receivers below node 3 must skip it in node 3's resolution)
+        let mut s11 = s2.clone();
+        s11.extend([c(0, vec![Add(4)]), c(4, vec![]), c(0, vec![Remove(1)])]);
+        // eight members, dense, every parent filled (needs 8 parties; skipped in smaller worlds)
+        let mut s12 = s2.clone();
+        s12.extend([c(0, vec![Add(4), Add(5), Add(6), Add(7)]), c(4, vec![]), c(5, vec![]), c(6, vec![]), c(7, vec![])]);
+        // the same with blank leaves 1 and 5 under re-keyed parents, removed from the other half
+        let mut s13 = s12.clone();
+        s13.extend([c(6, vec![Remove(1)]), c(2, vec![Remove(5)])]);
         let all: Vec<(&str, Vec<Act>)> = vec![
             ("S0", vec![]),
             ("S1", s1),
@@ -158,10 +172,17 @@ impl HistoryModel {
             ("S8", s8),
             ("S9", s9),
             ("S10", s10),
+            ("S11", s11),
+            ("S12", s12),
+            ("S13", s13),
         ];
         let mut out = vec![];
         for (name, acts) in all {
             if !self.seeds.is_empty() && !self.seeds.contains(&name) {
+                continue;
+            }
+            // the 8-member seeds are used only where a model asks for them by name
+            if matches!(name, "S12" | "S13") && (self.seeds.is_empty() || self.n_parties < 8) {
                 continue;
             }
             if let Some(s) = self.script(cfg, name, acts, ctx) {
@@ -766,7 +787,7 @@ impl Model for HistoryModel {
     }
 
     fn depth(&self, seed_idx: usize) -> usize {
-        let per_cfg = if self.seeds.is_empty() { 11 } else { self.seeds.len() };
+        let per_cfg = if self.seeds.is_empty() { GALLERY_SIZE } else { self.seeds.len() };
         let first_is_s0 = self.seeds.is_empty() || self.seeds[0] == "S0";
         if seed_idx % per_cfg == 0 && first_is_s0 {
             self.depth_initial
